@@ -252,6 +252,11 @@ def main():
     T.name = 'routing:publish-delivers-iff-filter-matches'
     T.oracle = lambda ex, S: O.c01_publish(ex, S, T)
     run_transition(chk, prog, T, max_paths=200000)
+    # the second place filters are applied: a dead-lettered message is offered to the dead-letter topic's subscriptions by their filters
+    T2 = tr.DeadLetterSweep()
+    T2.name = 'routing:dead-letter-forward-iff-filter-matches'
+    T2.oracle = lambda ex, S: [x for x in O.c06_deadletter(ex, S, T2) if x[0].startswith('forwarded-exactly-once')]
+    run_transition(chk, prog, T2, max_paths=200000)
     # a filter change takes effect for later publishes (hidden parsed-filter state would break this)
     import checks.c02 as c02
     c02.grpc_mappings(chk, prog, only_chain=True)
